@@ -81,10 +81,14 @@ Section C07.
                  end
     end.
 
-  (** Optic.set_thickness(value, k) acting on SurfaceGroup.positions (= every cs.z) *)
+  (** Optic.set_thickness(value, k) acting on SurfaceGroup.positions (= every cs.z): the object gap (k = 0)
+      only moves the object, every other gap shifts all later vertices; then surface 1 is re-based to z = 0 *)
   Definition set_thickness (pos : list T) (value : T) (k : nat) : list T :=
-    let delta := add (sub value (nthT pos (S k))) (nthT pos k) in
-    let pos1 := add_from (S k) delta pos in
+    let pos1 := match k with
+                | 0%nat => set_nth pos 0 (sub (nthT pos 1) value)
+                | S _ => let delta := add (sub value (nthT pos (S k))) (nthT pos k) in
+                         add_from (S k) delta pos
+                end in
     let p1 := nthT pos1 1 in
     map (fun p => sub p p1) pos1.
 
@@ -115,7 +119,7 @@ Section C07.
     let n := length (pc_pos p) in
     mkPresc (map (fun R => if isinf_ R then R else mul R s) (pc_R p))
             (scale_pos s n (thicknesses (pc_pos p)) 0 (pc_pos p))
-            (pc_dx p) (pc_dy p)
+            (map (fun v => mul v s) (pc_dx p)) (map (fun v => mul v s) (pc_dy p))
             (map (fun a => match a with
                            | Some (rmax, rmin) => Some (k_c07_ap_scale O s rmax rmin)
                            | None => None end) (pc_ap p))
